@@ -144,6 +144,11 @@ void ReadRecordHeader(
 
     if (fread(Header, 1, 1, f) != 1) {
         ChkIO(Name);
+
+        /* errno is not set at the end of the file: the file lacks its end record,
+           or the previous record was longer than the rest of the file */
+
+        FormatError(Name, catgetmessage(&MsgCat, Num_FormatErrEOFMsg));
     }
     if ((*Header != FileHeaderEnd) && (*Header != FileHeaderStartAdr)) {
         if ((*Header == FileHeaderDataRec) || (*Header == FileHeaderRDataRec)
